@@ -7,7 +7,7 @@
    beneath.  Monitors: Spec/WorldSpec.v (c17_step, c16_step, c18_step,
    c09_step); proofs: Proofs/W_C17.v. *)
 From VF Require Import Base.Prelude Model.Cache Model.Session Model.Middleware Corr.WorldCorr Spec.WorldSpec.
-From VF Require Import Proofs.WorldBase Proofs.VerifyProofs Proofs.ServeLemmas Proofs.SessionProofs Proofs.W_C17 Proofs.W_C17H Proofs.W_Example.
+From VF Require Import Proofs.WorldBase Proofs.VerifyProofs Proofs.ServeLemmas Proofs.SessionProofs Proofs.W_C17 Proofs.W_C17H Proofs.W_C17P Proofs.W_Example.
 Open Scope N_scope.
 
 (* For every input of a ready instance: no panic flag, never the harness's
@@ -89,6 +89,30 @@ Theorem C17_save_heals : forall (k : N) (j : jar) (sd : sdata) (ca cr : nat),
   holds_session k (apply_cookies k j (save_cookies sd)) sd.
 Proof. exact save_heals. Qed.
 Print Assumptions C17_save_heals.
+
+(* The premise of C17_login_heals is an invariant of the browser's jar.
+   `prefix j` says: for some a, r the numbered chunk cookies present in j are
+   exactly 0..a-1 / 0..r-1 (prefix_at a r j), whatever any cookie contains.
+   Every response of the middleware, in any state and for any request, maps a
+   prefix jar to a prefix jar (a Save deletes chunk cookies only from the number
+   it writes up to the number present in the request, and only the first Save of
+   a response deletes at all); and a client that replaces cookie VALUES under
+   the same names keeps the jar a prefix jar (so does dropping a whole main /
+   token cookie: W_C17P.prefix_remove_base; the empty jar is one:
+   W_C17P.prefix_empty).  Together with C17_login_heals: the healing premise
+   holds for every jar reachable from the empty jar by middleware responses and
+   by client tampering with cookie values or dropping whole main / token
+   cookies -- only deleting a MIDDLE chunk cookie by hand leaves the class. *)
+Theorem C17_prefix_invariant : forall (E : env) (cfg : config) (st : inst) (now : time) (rq : request)
+    (rnd : istr * istr * istr) (ans : option answer),
+  prefix (q_jar rq) ->
+  prefix (apply_cookies (c_key cfg) (q_jar rq) (r_cookies (snd (serve E cfg st now rq rnd ans)))).
+Proof. exact c_serve_prefix. Qed.
+Print Assumptions C17_prefix_invariant.
+
+Theorem C17_prefix_tamper : forall (j j2 : jar), map fst j2 = map fst j -> prefix j -> prefix j2.
+Proof. exact prefix_same_names. Qed.
+Print Assumptions C17_prefix_tamper.
 
 Print Assumptions C09_step.
 
